@@ -37,4 +37,5 @@ var (
 	execTxsig  = runop.ExecTxsig
 	txsigLine  = runop.TxsigLine
 	execTie    = runop.ExecTie
+	judgePair  = runop.JudgePair
 )
